@@ -22,6 +22,46 @@ impl AtomicBool {
     pub fn sim_id(&self) -> usize {
         self.id
     }
+    // the rest of std's API, so that an edit of the engine that uses it still runs under the simulator
+    pub fn swap(&self, b: bool, _o: std::sync::atomic::Ordering) -> bool {
+        let old = sched::flag_load(self.id, &self.v);
+        sched::flag_store(self.id, &self.v, b);
+        old
+    }
+    pub fn fetch_and(&self, b: bool, o: std::sync::atomic::Ordering) -> bool {
+        let old = sched::flag_load(self.id, &self.v);
+        sched::flag_store(self.id, &self.v, old & b);
+        let _ = o;
+        old
+    }
+    pub fn fetch_or(&self, b: bool, o: std::sync::atomic::Ordering) -> bool {
+        let old = sched::flag_load(self.id, &self.v);
+        sched::flag_store(self.id, &self.v, old | b);
+        let _ = o;
+        old
+    }
+    pub fn compare_exchange(&self, cur: bool, new: bool, _s: std::sync::atomic::Ordering, _f: std::sync::atomic::Ordering) -> Result<bool, bool> {
+        let old = sched::flag_load(self.id, &self.v);
+        if old == cur {
+            sched::flag_store(self.id, &self.v, new);
+            Ok(old)
+        } else {
+            Err(old)
+        }
+    }
+    pub fn into_inner(self) -> bool {
+        self.v.into_inner()
+    }
+}
+impl Default for AtomicBool {
+    fn default() -> Self {
+        Self::new(false)
+    }
+}
+impl std::fmt::Debug for AtomicBool {
+    fn fmt(&self, f: &mut std::fmt::Formatter<'_>) -> std::fmt::Result {
+        write!(f, "AtomicBool({:?})", self.v)
+    }
 }
 
 pub struct Mutex<T> {
@@ -51,6 +91,36 @@ impl<T> Mutex<T> {
                 Err(TryLockError::WouldBlock) => sched::mutex_blocked(self.id),
             }
         }
+    }
+}
+impl<T> Mutex<T> {
+    pub fn try_lock(&self) -> std::sync::TryLockResult<MutexGuard<'_, T>> {
+        sched::mutex_before_lock();
+        match self.inner.try_lock() {
+            Ok(g) => {
+                sched::mutex_acquired(false);
+                Ok(MutexGuard { g: Some(g), id: self.id })
+            }
+            Err(TryLockError::Poisoned(p)) => {
+                sched::mutex_acquired(true);
+                Err(TryLockError::Poisoned(PoisonError::new(MutexGuard { g: Some(p.into_inner()), id: self.id })))
+            }
+            Err(TryLockError::WouldBlock) => Err(TryLockError::WouldBlock),
+        }
+    }
+    pub fn is_poisoned(&self) -> bool {
+        self.inner.is_poisoned()
+    }
+    pub fn into_inner(self) -> LockResult<T> {
+        self.inner.into_inner()
+    }
+    pub fn get_mut(&mut self) -> LockResult<&mut T> {
+        self.inner.get_mut()
+    }
+}
+impl<T: Default> Default for Mutex<T> {
+    fn default() -> Self {
+        Self::new(T::default())
     }
 }
 impl<T> std::ops::Deref for MutexGuard<'_, T> {
